@@ -1,7 +1,7 @@
 (* The bridge between the SPECIFICATION (FileSpec.v: os.File on Linux) and the
    IMPLEMENTATION model (MemFS.v, MemFile.v, World.v):
      impl_call  - the MemFS call that realises a specification operation,
-     proj_res   - the projection of an implementation result on the specification's observables,
+     fproj_res   - the projection of an implementation result on the specification's observables,
      kf02       - the decidable classifier of the KNOWN deviations of the implementation,
                   as a function of the specification state and the operation,
      dghost/kfdir - the same for directory handles.
@@ -37,7 +37,7 @@ Definition impl_call (op : fop) : call :=
   end.
 
 (* error kinds (Linux flavour of the emulated file system) *)
-Definition proj_err (e : ekind) : serr :=
+Definition fproj_err (e : ekind) : serr :=
   match e with
   | EG_EOF => X_EOF
   | EG_Closed | EG_FileClosing => X_Closed
@@ -51,17 +51,17 @@ Definition proj_err (e : ekind) : serr :=
   | _ => X_Other
   end.
 
-Definition proj_info (i : finfo) : sinfo :=
+Definition fproj_info (i : finfo) : sinfo :=
   {| si_size := fi_size i; si_nlink := fi_nlink i; si_perm := fi_mode i; si_uid := fi_uid i; si_gid := fi_gid i |}.
 
-Definition proj_res (r : res) : sres :=
+Definition fproj_res (r : res) : sres :=
   match r with
   | ROk => S_Ok
   | RFail EFuel => S_BadIndex
-  | RFail e => S_Err (proj_err e)
-  | RErrPath e _ => S_Err (proj_err e)
-  | RInfo i => S_Info (proj_info i)
-  | RBytes n b e => S_Data n b (option_map proj_err e)
+  | RFail e => S_Err (fproj_err e)
+  | RErrPath e _ => S_Err (fproj_err e)
+  | RInfo i => S_Info (fproj_info i)
+  | RBytes n b e => S_Data n b (option_map fproj_err e)
   | RInt z => S_Int z
   | RHandle h => S_Fd h
   | _ => S_Err X_Other
@@ -79,15 +79,14 @@ Inductive finding :=
 | KfZeroLenWriteAt       (* WriteAt(empty, off): EBADF, or extends the file to off; os.File: (0, nil), no effect *)
 | KfWriteAtAppend        (* WriteAt on an O_APPEND handle is carried out; os.File refuses it *)
 | KfClosedPriority       (* which error wins on a closed handle: offset / size validation versus closed *)
-| KfUnlinkDropsData      (* removing (or renaming over) the last name of a file open somewhere empties its data *)
-| KfRenameHardLinkAlias  (* Rename(a, b) where a and b name the same inode removes a; rename(2) does nothing *)
-| KfPathTruncatePriority. (* Truncate(missing name, negative size): ENOENT; truncate(2) refuses the size first (EINVAL) *)
+| KfUnlinkDropsData.     (* removing (or renaming over) the last name of a file open somewhere empties its data *)
+
 
 Definition finding_id (k : finding) : N :=
   match k with
   | KfOpenModeFromOptions => 1 | KfAppendOpenOffset => 2 | KfZeroLenRead => 3 | KfZeroLenReadAt => 4
   | KfZeroLenWrite => 5 | KfZeroLenWriteAt => 6 | KfWriteAtAppend => 7 | KfClosedPriority => 8
-  | KfUnlinkDropsData => 9 | KfRenameHardLinkAlias => 10 | KfPathTruncatePriority => 11
+  | KfUnlinkDropsData => 9
   end%N.
 
 (* the rights a handle with OpenMode om really has, versus those of the access mode *)
@@ -113,7 +112,7 @@ Definition fd_get (st : fstate) (fd : nat) : option (ofd * inode) :=
 Definition kf02 (st : fstate) (op : fop) : option finding :=
   match op with
   | Open name flag perm =>
-      match access_of flag, fst (spec_step st op), snd (spec_step st op) with
+      match access_of flag, fst (fspec_step st op), snd (fspec_step st op) with
       | Some a, st', S_Fd k =>
           if negb (caps_agree (to_open_mode flag) a) then Some KfOpenModeFromOptions
           else match fd_get st' k with
@@ -174,14 +173,9 @@ Definition kf02 (st : fstate) (op : fop) : option finding :=
   | PRename old new =>
       match lookup_name st old, lookup_name st new with
       | Some i, Some j =>
-          if Nat.eqb i j then (if str_eqb old new then None else Some KfRenameHardLinkAlias)
+          if Nat.eqb i j then None
           else if drops_data st j then Some KfUnlinkDropsData else None
       | _, _ => None
-      end
-  | PTruncate name size =>
-      match lookup_name st name with
-      | None => if Z.ltb size 0 then Some KfPathTruncatePriority else None
-      | Some _ => None
       end
   | _ => None
   end.
@@ -287,6 +281,13 @@ Definition orefa_step (w : world) (op : fop) : world * res :=
   match op with
   | Ftruncate fd size => if handle_closed w fd then wstep w (FTruncate fd 0) else wstep w (FTruncate fd size)
   | PRename old new => on_view w 0 (fun v => lift w (orefa_rename (w_fs w) v (fpath old) (fpath new)))
+  | PTruncate name size =>       (* OrefaFS.Truncate looks the name up before it tests the size *)
+      if Z.ltb size 0 then
+        match wstep w (CStat 0 (fpath name)) with
+        | (_, RFail e) => (w, RFail e)
+        | _ => (w, RFail EInvalidArgument)
+        end
+      else wstep w (impl_call op)
   | _ => wstep w (impl_call op)
   end.
 
@@ -296,7 +297,9 @@ Definition still_visible (st : fstate) (j : nat) : bool :=
 
 Inductive ofinding :=
 | OKf (k : finding)
-| OKfRenameKeepsLinkCount.   (* OrefaFS.Rename over an existing file: the replaced inode keeps its link count *)
+| OKfRenameKeepsLinkCount    (* OrefaFS.Rename over an existing file: the replaced inode keeps its link count *)
+| OKfRenameHardLinkAlias     (* OrefaFS.Rename(a, b), a and b names of one inode: a is removed; rename(2) does nothing *)
+| OKfPathTruncatePriority.   (* OrefaFS.Truncate(missing name, negative size): ENOENT; truncate(2) refuses the size first *)
 
 Definition kf02_orefa (st : fstate) (op : fop) : option ofinding :=
   match op with
@@ -304,9 +307,14 @@ Definition kf02_orefa (st : fstate) (op : fop) : option ofinding :=
   | PRename old new =>
       match lookup_name st old, lookup_name st new with
       | Some i, Some j =>
-          if Nat.eqb i j then (if str_eqb old new then None else Some (OKf KfRenameHardLinkAlias))
+          if Nat.eqb i j then (if str_eqb old new then None else Some OKfRenameHardLinkAlias)
           else if still_visible st j then Some OKfRenameKeepsLinkCount else None
       | _, _ => None
+      end
+  | PTruncate name size =>
+      match lookup_name st name with
+      | None => if Z.ltb size 0 then Some OKfPathTruncatePriority else None
+      | Some _ => None
       end
   | _ => option_map OKf (kf02 st op)
   end.
